@@ -17,6 +17,10 @@ class Unsupported(Exception):
     pass
 
 
+class DividesByZero(Unsupported):
+    """The formula divides by a quantity that is identically zero."""
+
+
 class Poly:
     """Multivariate polynomial: {((sym, exp), ...) sorted: Fraction}."""
 
@@ -99,7 +103,7 @@ class Rat:
         self.n = n
         self.d = d if d is not None else Poly.const(1)
         if self.d.is_zero():
-            raise Unsupported('division by the zero polynomial')
+            raise DividesByZero('division by the zero polynomial')
 
     @staticmethod
     def const(v):
@@ -123,7 +127,7 @@ class Rat:
 
     def __truediv__(self, o):
         if o.n.is_zero():
-            raise Unsupported('division by zero')
+            raise DividesByZero('division by zero')
         return Rat(self.n * o.d, self.d * o.n)
 
     def __pow__(self, k):
